@@ -408,6 +408,12 @@ void mmd_export_header_opml(DString * out, const char * source, token * t, scrat
 
 		walker = t->child->tail;
 
+		// The tail pointer can lag behind when the last token has been split
+		// (e.g. a `~>` at the very end of the text): go to the real last sibling
+		while (walker && walker->next) {
+			walker = walker->next;
+		}
+
 		while (walker) {
 			switch (walker->type) {
 				case TEXT_NL:
